@@ -45,6 +45,13 @@ def _gen_kernels(d):
     w("x86_len101.s", ["addq $1, %%r%d" % (8 + i % 8) for i in range(101)], "x86")
     w("x86_len100.s", ["addq $1, %%r%d" % (8 + i % 8) for i in range(100)], "x86")
     w("a64_len101.s", ["add x%d, x%d, #1" % (i % 8, i % 8) for i in range(101)], "aarch64")
+    # more than 100 lines, fewer than 100 of them instructions (labels, directives, comments
+    # are lines of the kernel too) - and just below the threshold
+    mixed = []
+    for i in range(40):
+        mixed += [".Lm%d:" % i, "addq $1, %%r%d" % (8 + i % 8), "# note %d" % i]
+    w("x86_len120_mixed.s", mixed, "x86")
+    w("x86_len99_mixed.s", mixed[:99], "x86")
     # marked kernels inside files of more than 100 lines; instruction mixes on which a guess of
     # the ISA from the text goes wrong (x86 integer code with hex immediates, AArch64 without
     # x/w registers): without --arch the other ISA has to be tried, and the markers still count
